@@ -53,7 +53,8 @@ def apply_regions(obls: list[Obl], findings: list[dict]) -> None:
 
 def run_e1(prop_id: str, tier: str, seed: int, obls: list[Obl], *, functions_encoded: list[str], stubs: list[str],
            assumptions: list[str], rule: str, bounds: dict, jobs: int = 16, extra_coverage: dict | None = None,
-           pre_violations: list[dict] | None = None, spurious_inconclusive: bool = True, max_spurious_rounds: int = MAX_SPURIOUS_ROUNDS) -> int:
+           pre_violations: list[dict] | None = None, spurious_inconclusive: bool = True, max_spurious_rounds: int = MAX_SPURIOUS_ROUNDS,
+           inconclusive_probe=None) -> int:
     t0 = time.time()
     findings = kfmod.load(prop_id)
     apply_regions(obls, findings)
@@ -115,6 +116,20 @@ def run_e1(prop_id: str, tier: str, seed: int, obls: list[Obl], *, functions_enc
             v["twin"] = results[k].get("twin")
             v["replays"] = results[k].get("replays", [])
             results[k] = v
+
+    # --- obligations that did not reach a verdict: optional concrete witness search (never a deciding step)
+    if inconclusive_probe is not None:
+        for key, r in results.items():
+            if r.get("verdict") in ("inconclusive", "pre_unsat") or (r.get("verdict") == "error" and "NO_RESULT" in json.dumps(r.get("messages"))):
+                o = by_key[key]
+                w = inconclusive_probe(o, r)
+                if w:
+                    rp = replay(o.harness, o.params, w["args"], timeout=30)
+                    r.setdefault("replays", []).append({"args": w["args"], "replay": rp, "from": "watchdog probe"})
+                    if rp.get("ok") and rp.get("holds") is False:
+                        violations.append({"obligation": key, "harness": o.harness, "params": o.params, "args": w["args"],
+                                           "detail": (w.get("why", "") + " :: " + str(rp.get("detail", "")))[:800]})
+                        r["verdict"] = "refuted"
 
     # --- errors in the harness itself
     worker_errors = []
